@@ -131,6 +131,10 @@ func (cp *Processor) verifySessionV2(tok sessionv2.Token, v signatureVerificatio
 		if !tok.AssertContainer(v.verbV2, v.idContainer) {
 			return errWrongCID
 		}
+	} else if !tok.AssertContainer(v.verbV2, cid.ID{}) {
+		// the container does not exist yet (creation): the verb still has to
+		// be granted, and only a wildcard context can grant it
+		return errWrongSessionVerb
 	}
 
 	if tok.OriginalIssuer() != v.ownerContainer {
